@@ -319,6 +319,8 @@ class binary_sequence():
         sizeof
     """
 
+    __array_ufunc__ = None # numpy arrays defer to the reflected operators: ``ndarray + binary_sequence`` concatenates
+
     def __init__(self, data: str | Iterable): 
         """ Initialize the binary sequence object.
 
